@@ -1,6 +1,6 @@
 # Human-written metadata per check for MANIFEST.json.
 ENGINES = [
-    {"name": "meshx", "path": "/verif/kit (world.go, node.go, conn.go)", "serves_properties": ["C01", "C06", "C07", "C08", "C09", "C10"],
+    {"name": "meshx", "path": "/verif/kit (world.go, node.go, conn.go)", "serves_properties": ["C01", "C04", "C06", "C07", "C08", "C09", "C10"],
      "kind_free_text": "event-level explorer over a world of real routers (real state/peering/switch/router modules per node) wired by virtual links or adversary-owned connections; one event = one synchronous call into the real handlers, virtual time via testing/synctest"},
     {"name": "seqx", "path": "/verif/kit (bfs.go) + /verif/checks/*", "serves_properties": ["C01", "C02", "C03", "C11", "C12", "C17", "C18", "C19"],
      "kind_free_text": "sequential bounded-exhaustive / explicit-state explorer over the real objects (fresh object + replay per path, canonical state hash)"},
@@ -51,6 +51,13 @@ META = {
         "design_ref": "DESIGN.md §2 C03",
         "text": "All delivery histories of length 6 (thorough 7) over four 6-number alphabets (contiguous, straddling the 64-frame window edge twice, near 2^32) are delivered to the bare sequence handler, to real end-to-end frames sealed by A and unsealed at B (regular and priority class), and to real link frames; signed class: all words over 5 timestamps through the bare time handler and real signed frames. Each delivery is judged by a reference model (accepted set + maximum): never accepted twice; fresh and within 64 of the newest => accepted; signed => strictly increasing. Complete for the stated alphabets and length, which covers reordering, duplication and loss in every combination.",
         "note": "Numbers outside the alphabets are assumed to behave like those inside; the key-rollover zone (>= 0xFFFFFF00) is excluded here and covered by C15.",
+    },
+    "C04": {
+        "engine": "meshx (real links)",
+        "technique": "exhaustive fault enumeration on the six handshake messages of the real link setup over an adversary-owned connection (synctest bubble), plus an active impostor speaking the protocol",
+        "design_ref": "DESIGN.md §2 C04",
+        "text": "Two real Peering instances run the real handleSetup (hook VerifSetupLink) over an in-memory connection whose every message the harness sees and whose every read it feeds; executions are made deterministic by a synctest bubble (quiescence instead of timeouts). Configurations: identity pairs incl. self-connection x universe {same, different, empty} x secret {same, different, only A, only B, none}. Faults per message: every bit of every byte (one configuration in full; others header/edges/signature), truncation to every length, drop, duplicate, replay of the same-position message of a previous complete session of the same pair, reflection to the sender - under both dispatch orders of simultaneous messages. Oracles: a registered link names the true peer and the configuration admits it (same universe; own secret => peer proved it); the receiver of an altered/truncated/replayed/reflected message registers nothing; without fault both ends register and three frames per direction sent through the link arrive byte-identical. An active impostor with its own key pair speaks the full protocol claiming another router's address over connection sequences (forged key first, then the genuine address; victim known/unknown): no link may ever be registered.",
+        "note": "Length-prefix and TTL/flow bits are unauthenticated; for them only the safety oracle applies. The adversary holds no honest private key. Swaps of messages within one direction are causally impossible in this lock-step protocol and therefore not enumerated.",
     },
     "C06": {
         "engine": "meshx",
